@@ -10,7 +10,7 @@
 From Coq Require Import List NArith Arith Bool.
 From Verif.Common Require Import Prefix.
 From Coq Require Import Permutation.
-From Verif.C43 Require Import Model Spec Proofs Final FinalProofs Blackhole MgrProofs FlushPerm Reflag Peer PoolUpd Chain Order.
+From Verif.C43 Require Import Model Spec Proofs Final FinalProofs Blackhole MgrProofs FlushPerm Reflag Peer PoolUpd Chain Fresh FreshOps NR Inv Order.
 Import ListNotations.
 Open Scope N_scope.
 
@@ -168,6 +168,21 @@ Proof.
   split; [vm_compute; reflexivity|]. split; [eexists; vm_compute; reflexivity|].
   split; [exists 1%nat; vm_compute; auto|vm_compute; reflexivity].
 Qed.
+
+(* (5) NO STALE ROUTES, every update kind: along EVERY history of pool, block, node and local-workload updates
+       (current tree, fixed = true) the resolver keeps its invariant [inv] (Inv.v): the dirty set is empty
+       between updates; nodeRoutes reference counts cover every block / workload route; blockToRoutes agrees with
+       the trie; workload reference counts never underflow; and [out_ok]: a CIDR without route information has
+       no route downstream, and every workload / block route (every CIDR that is not a node's own address)
+       held downstream is exactly what flush() computes from the CURRENT trie and node table -- whatever order
+       the updates arrived in.  Hypotheses on the history, stated explicitly: block keys never overlap ([sep]:
+       no address range lies inside two different block keys of the history); each block value has distinct
+       route destinations, all inside the block ([blk_ok]); workload addresses are /32. *)
+Theorem c43_no_stale_routes : forall (BK : prefix -> Prop),
+  (forall a b x, BK a -> BK b -> covers 32 a x = true -> covers 32 b x = true -> a = b) ->
+  forall ops, Forall (hop_ok BK) ops -> inv BK (run true ops).
+Proof. exact inv_history. Qed.
+Print Assumptions c43_no_stale_routes.
 
 (* c43_order_independent at full strength (for every history of the repaired resolver, the kernel routes of the
    remote destinations = programmed (state_of history)) is NOT proved.  Missing: (a) the trie content as a function
